@@ -13,6 +13,8 @@ namespace {
 
 constexpr std::size_t kChunkIdSize = ChunkId{}.size();
 constexpr std::size_t kPeerIdSize = PeerId{}.size();
+// Announce messages carry the proof-of-work nonce from this version onward (encoder and decoder agree).
+constexpr std::uint8_t kAnnouncePowMinVersion = 3;
 
 std::uint8_t clamp_version(std::uint8_t version) {
     if (version < kMinimumMessageVersion) {
@@ -218,7 +220,7 @@ std::vector<std::uint8_t> encode(const Message& message) {
                 const auto endpoint_len = static_cast<std::uint32_t>(payload.endpoint.size());
                 const auto manifest_len = static_cast<std::uint32_t>(payload.manifest_uri.size());
                 const auto assignments_len = static_cast<std::uint32_t>(payload.assigned_shards.size());
-                const bool include_pow = version >= kCurrentMessageVersion;
+                const bool include_pow = version >= kAnnouncePowMinVersion;
 
                 write_u32(out, static_cast<std::uint32_t>(payload.ttl.count()));
                 write_u32(out, endpoint_len);
@@ -281,7 +283,7 @@ std::optional<Message> decode(std::span<const std::uint8_t> buffer) {
     const auto remaining = buffer.size() - 2;
 
     std::optional<Payload> payload{};
-    if (version >= 3 && type == MessageType::Announce) {
+    if (version >= kAnnouncePowMinVersion && type == MessageType::Announce) {
         auto parsed = parse_announce_payload(data, remaining, true);
         if (!parsed.has_value()) {
             return std::nullopt;
